@@ -78,12 +78,16 @@ def run(ctx):
         # every third sequence is "paired": its objects share (method, n, order) and differ only in the step ratio, and nothing but
         # constructions and calls happens, so that two configurations compete for what could be one cache entry
         paired = seq_i % 3 == 2
+        # another third is reconfiguration-heavy: few objects, mostly attribute assignments (method, order, n) between calls
+        reconf = seq_i % 3 == 1
         pm = rng.choice(['central', 'forward', 'backward', 'complex'])
         pn, po = rng.randint(1, 4), rng.randint(1, 6)
         for step_i in range(length):
             kind = rng.choice(['C', 'K', 'K', 'K', 'N', 'O', 'M', 'S', 'X']) if objs else 'C'
             if paired:
                 kind = 'C' if len(objs) < 2 else rng.choice(['K', 'K', 'K', 'C'])
+            elif reconf:
+                kind = 'C' if not objs else rng.choice(['M', 'M', 'M', 'O', 'N', 'K', 'K', 'K'])
             if kind == 'C' and len(objs) < 5:
                 m = rng.choice(['central', 'forward', 'backward', 'complex', 'multicomplex'])
                 n = rng.randint(1, 2 if m == 'multicomplex' else 4)
@@ -96,7 +100,8 @@ def run(ctx):
                     sr = rng.choice([None, 2.0, 2.5, 2.25, 1.6, 1.2, 1.25, 1.75])
                 kw = {} if sr is None else {'step_ratio': sr}
                 d = nd.Derivative(FUNCS[fname], n=n, method=m, order=o, full_output=True, **kw)
-                objs.append({'d': d, 'f': fname, 'sr': sr})
+                # the intended configuration is tracked here, never read back from the object
+                objs.append({'d': d, 'f': fname, 'sr': sr, 'n': n, 'method': m, 'order': o})
                 toks.append('C,%s,%d,%d,1,%s' % (m, n, o, '-' if sr is None else q2s(Fraction(make_exact(sr)))))
                 impl_trace.append((sorted(fdm.FD_RULES), None))
                 continue
@@ -104,6 +109,7 @@ def run(ctx):
                 kind = 'K'
             i = rng.randrange(len(objs))
             d = objs[i]['d']
+            cfg = objs[i]
             if kind == 'K':
                 x = rng.choice([0.5, 1.25, 2.0, rng.uniform(0.3, 3)])
                 with warnings.catch_warnings():
@@ -112,45 +118,55 @@ def run(ctx):
                         val, info = d(x)
                     except ValueError:
                         # a configuration the library rejects (multicomplex with n > 2 after a change of n)
-                        toks.append('N,%d,%d' % (i, d.n))
+                        if not (cfg['method'] == 'multicomplex' and cfg['n'] > 2):
+                            ctx.violation('a valid configuration reached by attribute assignment was rejected', config=[cfg['method'], cfg['n'], cfg['order']])
+                        toks.append('N,%d,%d' % (i, cfg['n']))
                         impl_trace.append((sorted(fdm.FD_RULES), None))
                         continue
                 st = d.step._state
                 toks.append('K,%d,x%d' % (i, len(toks)))
                 impl_trace.append((sorted(fdm.FD_RULES), (str(st.method), int(st.n), int(st.order))))
-                requests.append({'cls': 'Derivative', 'f': objs[i]['f'], 'n': int(d.n), 'method': d.method, 'order': int(d.order), 'x': x,
+                requests.append({'cls': 'Derivative', 'f': objs[i]['f'], 'n': cfg['n'], 'method': cfg['method'], 'order': cfg['order'], 'x': x,
                                  'step_ratio': getattr(d.step, '_step_ratio', None)})
                 results.append(pack(val, info))
                 ctx.tried((seq_i, step_i))
             elif kind == 'N':
                 newn = rng.randint(1, 4)
-                if d.method == 'multicomplex':
+                if cfg['method'] == 'multicomplex':
                     newn = min(newn, 2)
                 d.n = newn
+                cfg['n'] = newn
                 toks.append('N,%d,%d' % (i, newn))
                 impl_trace.append((sorted(fdm.FD_RULES), None))
             elif kind == 'O':
                 newo = rng.randint(1, 6)
                 d.order = newo
+                cfg['order'] = newo
                 toks.append('O,%d,%d' % (i, newo))
                 impl_trace.append((sorted(fdm.FD_RULES), None))
             elif kind == 'M':
                 # only real-step methods are interchangeable (the generator class is chosen at construction)
-                if d.method in REAL:
+                if cfg['method'] in REAL:
                     newm = rng.choice(REAL)
                     d.method = newm
+                    cfg['method'] = newm
+                    toks.append('M,%d,%s' % (i, newm))
+                elif cfg['n'] <= 2:
+                    newm = rng.choice(['complex', 'multicomplex'])
+                    d.method = newm
+                    cfg['method'] = newm
                     toks.append('M,%d,%s' % (i, newm))
                 else:
-                    toks.append('O,%d,%d' % (i, d.order))
+                    toks.append('O,%d,%d' % (i, cfg['order']))
                 impl_trace.append((sorted(fdm.FD_RULES), None))
             elif kind == 'S':
                 j = rng.randrange(len(objs))
-                same_family = (objs[j]['d'].method in REAL) == (d.method in REAL)
+                same_family = (objs[j]['method'] in REAL) == (cfg['method'] in REAL)
                 if same_family:
                     d.step = objs[j]['d'].step
                     toks.append('S,%d,%d' % (i, j))
                 else:
-                    toks.append('O,%d,%d' % (i, d.order))
+                    toks.append('O,%d,%d' % (i, cfg['order']))
                 impl_trace.append((sorted(fdm.FD_RULES), None))
             else:
                 fdm.FD_RULES.clear()
